@@ -194,7 +194,11 @@ def judge_c02(job, res):
     """C02: differential - this execution agrees with the baseline execution of the same graph and initial state
     (other policy / schedule / real-time factor / driver) on the common prefix of what both recorded."""
     v = []
-    if res["finished"]:
+    if job.get("baseline") is not None and (res["deadlock"] is not None or res["user_exc"] is not None):
+        # the baseline execution of the same graph completed every call: whether a call returns must not depend on the schedule
+        what = ("hang", res["deadlock"]["calls"]) if res["deadlock"] is not None else ("exception", res["user_exc"][0])
+        v.append(("differs-from-baseline:call-did-not-complete:" + what[0], what[1]))
+    if res["finished"] and res["user_exc"] is None:
         base = job.get("baseline")
         mine = observables(job, res)
         if base is not None:
@@ -263,8 +267,11 @@ def isolation_violations(job, res):
             st = nr["steps"]
             if st["seq"] and st["seq"][0] != 0:
                 v.append(("episode-first-seq", (n, st["seq"][:3])))
-            if st["seq"] and not (0.0 <= st["ts_start"][0] < 64.0):
-                v.append(("episode-first-ts", (n, st["ts_start"][0])))
+            # "starts from time 0": the first step starts at the node's phase (simulated clock, no blocking input), and
+            # in any case within a few periods of it (blocking inputs / wall-clock scheduling noise)
+            rate = job["spec"]["nodes"][n]["rate"]
+            if st["seq"] and not (0.0 <= st["ts_start"][0] <= nr["phase"] + 4.0 / rate + 0.05):
+                v.append(("episode-first-ts", (n, st["ts_start"][0], "phase", nr["phase"])))
             if any(e != st["eps"][0] for e in st["eps"]):
                 v.append(("episode-eps-mixed", (n, st["eps"])))
             for o, ms in nr["inputs"].items():
